@@ -1191,7 +1191,9 @@ impl ValueTable {
 	}
 
 	pub fn is_init(&self) -> bool {
-		self.file.map.read().is_some()
+		// The file alone does not tell: a process that stops while the table is being initialised
+		// leaves a file whose header (written last) still says that nothing was ever stored.
+		self.file.map.read().is_some() && self.filled.load(Ordering::Relaxed) > 1
 	}
 
 	pub fn init_with_entry(&self, entry: &[u8]) -> Result<()> {
@@ -1204,7 +1206,9 @@ impl ValueTable {
 	}
 
 	fn do_init_with_entry(&self, entry: &[u8]) -> Result<()> {
-		self.file.grow(self.entry_size)?;
+		if self.file.map.read().is_none() {
+			self.file.grow(self.entry_size)?;
+		}
 
 		let empty_overlays = RwLock::new(LogOverlays::with_columns(0));
 		let mut log = LogWriter::new(&empty_overlays, 0);
@@ -1213,7 +1217,10 @@ impl ValueTable {
 		assert_eq!(at, 1);
 		let log = log.drain();
 		let change = log.local_values_changes(self.id).expect("entry written above");
-		for (at, (_rec_id, entry)) in change.map.iter() {
+		// The table header (index 0) goes last: it is what marks the table as initialised.
+		let mut writes: Vec<_> = change.map.iter().collect();
+		writes.sort_by_key(|(at, _)| std::cmp::Reverse(**at));
+		for (at, (_rec_id, entry)) in writes {
 			self.file.write_at(entry.as_slice(), *at * (self.entry_size as u64))?;
 		}
 		Ok(())
